@@ -302,13 +302,23 @@ func (fw *FileWriter) flushLocked() error {
 		return nil // Nothing to flush
 	}
 
+	// Remember where this block starts. If the disk rejects or only partly performs one of
+	// the two writes below, the file is cut back to this offset: a partial block left in
+	// place would sit in front of every block written later and hide them from the reader.
+	blockStart, err := fw.file.Seek(0, io.SeekCurrent)
+	if err != nil {
+		return err
+	}
+
 	// Write block header
 	if _, err := fw.file.Write(header.Serialize()); err != nil {
+		fw.dropPartialBlock(blockStart)
 		return err
 	}
 
 	// Write compressed data
 	if _, err := fw.file.Write(compressed); err != nil {
+		fw.dropPartialBlock(blockStart)
 		return err
 	}
 
@@ -329,6 +339,9 @@ func (fw *FileWriter) flushLocked() error {
 		return err
 	}
 	if _, err := fw.file.Write(fw.header.Serialize()); err != nil {
+		// The counts in the header are advisory (readers walk the blocks); what matters is
+		// that the next block is appended at the end of the data and not over the header.
+		_, _ = fw.file.Seek(currentPos, io.SeekStart)
 		return err
 	}
 	if _, err := fw.file.Seek(currentPos, io.SeekStart); err != nil {
@@ -336,6 +349,13 @@ func (fw *FileWriter) flushLocked() error {
 	}
 
 	return nil
+}
+
+// dropPartialBlock removes whatever a failed block write left behind and puts the
+// write position back at the start of that block (best effort: the disk is failing).
+func (fw *FileWriter) dropPartialBlock(blockStart int64) {
+	_ = fw.file.Truncate(blockStart)
+	_, _ = fw.file.Seek(blockStart, io.SeekStart)
 }
 
 // Sync flushes the buffer and syncs to disk
@@ -362,6 +382,8 @@ func (fw *FileWriter) Sync() error {
 	}
 
 	if _, err := fw.file.Write(fw.header.Serialize()); err != nil {
+		// keep appending at the end of the data even though the header update failed
+		_, _ = fw.file.Seek(0, io.SeekEnd)
 		return err
 	}
 
